@@ -305,6 +305,17 @@ fn composite(ctx: &mut Ctx, r: &mut Rng) {
             } else if let Ok(l) = x {
                 if f64::from(l.coords.latitude).to_bits() != la.to_bits() || f64::from(l.gmt).to_bits() != g.to_bits() {
                     ctx.fail(json!({"kind": "document", "doc": doc}), "values differ from the text".into(), "bit-identical".into());
+                } else {
+                    // an accepted value reads back bit-identical: written out and read in again
+                    let back = catch_unwind(AssertUnwindSafe(|| serde_json::to_string(&l).ok().and_then(|t| serde_json::from_str::<Location>(&t).ok())));
+                    match back {
+                        Ok(Some(l2)) if l2 == l
+                            && f64::from(l2.coords.latitude).to_bits() == la.to_bits()
+                            && f64::from(l2.coords.longitude).to_bits() == lo.to_bits()
+                            && f64::from(l2.coords.elevation).to_bits() == el.to_bits()
+                            && f64::from(l2.gmt).to_bits() == g.to_bits() => {}
+                        other => ctx.fail(json!({"kind": "document", "doc": doc}), format!("written out and read back: {:?}", other), "bit-identical".into()),
+                    }
                 }
             }
         }
